@@ -60,3 +60,13 @@ class ConcMem:
 class Zero:
     def byte(self, addr):
         return 0
+
+
+class Shifted:
+    """A memory seen through a constant displacement (an extent placed at an offset of a larger disk)."""
+
+    def __init__(self, inner, delta):
+        self.inner, self.delta = inner, delta
+
+    def byte(self, addr):
+        return self.inner.byte(addr + self.delta)
